@@ -57,6 +57,7 @@ __all__ = [
 
 import os
 import sys
+import threading
 import types
 import warnings
 from collections.abc import Callable, Iterable, Iterator, Mapping
@@ -635,8 +636,10 @@ class RefsContainer:
 class DictRefsContainer(RefsContainer):
     """RefsContainer backed by a simple dict.
 
-    This container does not support symbolic or packed references and is not
-    threadsafe.
+    This container does not support symbolic or packed references. The
+    conditional operations (set_if_equals, add_if_new, remove_if_equals) are
+    atomic with respect to each other, so they can be used for
+    compare-and-swap between threads sharing the container.
     """
 
     def __init__(
@@ -659,6 +662,9 @@ class DictRefsContainer(RefsContainer):
         """Initialize DictRefsContainer with refs dictionary and optional logger."""
         super().__init__(logger=logger)
         self._refs = refs
+        # Makes the check and the update of the conditional operations one
+        # step; reentrant because watchers may call back into the container.
+        self._lock = threading.RLock()
         self._peeled: dict[Ref, ObjectID] = {}
         self._watchers: set[Any] = set()
 
@@ -740,12 +746,13 @@ class DictRefsContainer(RefsContainer):
           True if the set was successful, False otherwise.
         """
         self._check_ref_value(new_ref)
-        if old_ref is not None and self._refs.get(name, ZERO_SHA) != old_ref:
-            return False
-        # Only update the specific ref requested, not the whole chain
-        self._check_refname(name)
-        old = self._refs.get(name)
-        self._refs[name] = new_ref
+        with self._lock:
+            if old_ref is not None and self._refs.get(name, ZERO_SHA) != old_ref:
+                return False
+            # Only update the specific ref requested, not the whole chain
+            self._check_refname(name)
+            old = self._refs.get(name)
+            self._refs[name] = new_ref
         self._notify(name, new_ref)
         self._log(
             name,
@@ -781,9 +788,10 @@ class DictRefsContainer(RefsContainer):
           True if the add was successful, False otherwise.
         """
         self._check_ref_value(ref)
-        if name in self._refs:
-            return False
-        self._refs[name] = ref
+        with self._lock:
+            if name in self._refs:
+                return False
+            self._refs[name] = ref
         self._notify(name, ref)
         self._log(
             name,
@@ -822,23 +830,23 @@ class DictRefsContainer(RefsContainer):
         Returns:
           True if the delete was successful, False otherwise.
         """
-        if old_ref is not None and self._refs.get(name, ZERO_SHA) != old_ref:
-            return False
-        try:
-            old = self._refs.pop(name)
-        except KeyError:
-            pass
-        else:
-            self._notify(name, None)
-            self._log(
-                name,
-                old,
-                None,
-                committer=committer,
-                timestamp=timestamp,
-                timezone=timezone,
-                message=message,
-            )
+        with self._lock:
+            if old_ref is not None and self._refs.get(name, ZERO_SHA) != old_ref:
+                return False
+            try:
+                old = self._refs.pop(name)
+            except KeyError:
+                return True
+        self._notify(name, None)
+        self._log(
+            name,
+            old,
+            None,
+            committer=committer,
+            timestamp=timestamp,
+            timezone=timezone,
+            message=message,
+        )
         return True
 
     def get_peeled(self, name: Ref) -> ObjectID | None:
